@@ -39,18 +39,71 @@ def io_thread_never_blocks(ctx, prog):
     cap = reply_capacity(ctx, prog)
     bad = []
     n = 0
-    for nc in (0, 1):
-        fs, a, b, infoA, res = explore_step(ctx, ex, prog, shapeA='None', consumersA=nc, prefillA=cap)   # channel 0's own reply queue only ever receives the one CloseOk that ends the loop, so it is never full
+    panics = []
+    for (shape, nc, pf) in (('None', 0, cap), ('None', 1, cap), ('Body:Delivery', 1, 0), ('Body:Get', 0, 0), ('Start:Return', 0, 0)):
+        fs, a, b, infoA, res = explore_step(ctx, ex, prog, shapeA=shape, consumersA=nc, prefillA=pf)   # channel 0's own reply queue only ever receives the one CloseOk that ends the loop, so it is never full
         for (s, w, rv) in res:
             n += 1
             blocked = isinstance(rv, Panic) and rv.kind == 'block'
-            m = ctx.decide(f"c05.never-blocks[{nc}]#{n}", s.pc, z3.BoolVal(not blocked), group='no frame makes the I/O thread block on a client queue (reply queues full, every frame): it either delivers, discards or fails',
+            m = ctx.decide(f"c05.never-blocks[{shape},{nc}]#{n}", s.pc, z3.BoolVal(not blocked), group='no frame makes the I/O thread block on a client queue (reply queues full, every frame): it either delivers, discards or fails',
                            sample={'result': ('BLOCKS' if blocked else err_name(prog, rv))})
             if m is not None:
                 bad.append(fs.describe(m))
+            # ... nor panic (arithmetic included): a dead I/O thread hides the root cause from every caller
+            pan = isinstance(rv, Panic) and rv.kind not in ('block', 'cut', 'bound', 'infeasible')
+            m = ctx.decide(f"c05.never-panics[{shape},{nc}]#{n}", s.pc, z3.BoolVal(not pan), group='no frame panics the I/O thread, whatever content is half received (an over-long body, a stray header): it fails with an error that names the cause')
+            if m is not None:
+                panics.append((shape, fs.describe(m), str(rv)[:120]))
+    if panics:
+        ctx.report('io-thread-panics', f"a frame panics the I/O thread (collector {panics[0][0]}): {panics[0][2]}", {'cases': [str(x)[:300] for x in panics[:4]]}, OVERRUN_TEST,
+                   inject_into='src/io_loop/mod.rs', profiles=('dev',), hang_is_violation=True, panic_is_violation=True)
     if bad:
         ctx.report('io-thread-blocks', f"a frame makes the I/O thread block on a full client queue: {str(bad[0])[:300]}", {'frames': [str(x)[:200] for x in bad[:4]]},
                    BLOCK_TEST.replace('REPLY_CAP', str(cap)), inject_into='src/io_loop/mod.rs', profiles=('dev',), hang_is_violation=True, panic_is_violation=True)
+
+
+OVERRUN_TEST = r"""
+use super::*;
+use super::connection_state::ConnectionState;
+use amq_protocol::frame::{AMQPFrame, AMQPContentHeader};
+use amq_protocol::protocol::{AMQPClass, basic};
+#[test]
+fn verif_replay_content_overrun() {
+    // more body bytes than the header announced / a body where none is due / a second header: an error naming the cause, never a panic or a
+    // collector that waits for ever
+    let mut bad: Vec<String> = Vec::new();
+    let deliver = || AMQPFrame::Method(1, AMQPClass::Basic(basic::AMQPMethod::Deliver(basic::Deliver { consumer_tag: "ct".into(), delivery_tag: 1, redelivered: false, exchange: "".into(), routing_key: "".into() })));
+    let header = |n: u64| AMQPFrame::Header(1, 60, Box::new(AMQPContentHeader { class_id: 60, weight: 0, body_size: n, properties: Default::default() }));
+    let scenarios: Vec<(&'static str, Vec<AMQPFrame>)> = vec![
+        ("body-longer-than-announced", vec![deliver(), header(3), AMQPFrame::Body(1, vec![7u8; 5])]),
+        ("second-frame-overruns", vec![deliver(), header(4), AMQPFrame::Body(1, vec![7u8; 3]), AMQPFrame::Body(1, vec![7u8; 2])]),
+        ("body-without-header", vec![deliver(), AMQPFrame::Body(1, vec![7u8; 2])]),
+        ("two-headers", vec![deliver(), header(4), header(4)]),
+    ];
+    for (name, frames) in scenarios {
+        let r = std::panic::catch_unwind(move || {
+            let mut inner = Inner::new(HeartbeatTimers::default(), 16);
+            inner.chan_slots.set_channel_max(10);
+            let (ch0_slot, h0) = Channel0Slot::new(16);
+            let (mut slot, handle) = ChannelSlot::new(16, 1);
+            let (ctx_, crx) = crossbeam_channel::unbounded();
+            slot.consumers.insert("ct".to_string(), ctx_);
+            inner.chan_slots.insert(Some(1), |_| Ok((slot, ()))).unwrap();
+            let mut state = ConnectionState::Steady(ch0_slot);
+            let mut last = Ok(());
+            for f in frames { last = state.process(&mut inner, f); if last.is_err() { break; } }
+            let delivered = crx.try_iter().count();
+            std::mem::forget(handle); std::mem::forget(h0);
+            (last.is_ok(), matches!(state, ConnectionState::ClientException), delivered)
+        });
+        match r {
+            Ok((ok, exception, delivered)) => if (ok && !exception) || delivered > 0 { bad.push(format!("{}:accepted(ok={},exception={},delivered={})", name, ok, exception, delivered)); },
+            Err(_) => bad.push(format!("{}:PANIC", name)),
+        }
+    }
+    if bad.is_empty() { println!("VERIF-REPLAY-OK"); } else { println!("VERIF-REPLAY-VIOLATION io-thread-panics {}", bad.join(",")); }
+}
+"""
 
 
 BLOCK_TEST = r"""
